@@ -155,6 +155,13 @@ def run(tier, seed, replay=None):
                 if tag in (b"Silf", b"Glat", b"Gloc", b"Sill", b"Feat", b"Sile") and sum(1 for x in ttf.parse(open(d + "/gh.ttf", "rb").read())[1] if x[0] == tag) != 1:
                     fails.append("Graphite table %s accumulated" % tag.decode())
             stats["cross_chains"] += 1
+        # labels declared in several languages all get language 0 on the Macintosh Roman and Unicode 2.0 platforms (the compiler
+        # says so: warnings 5506 / 5507), so a label with an English and another form has two records under one key there
+        import re as _re
+        collapsed = [f for f in fails if _re.match(r"FAIL duplicate name record \((1, \(0, \(0,|0, \(3, \(0,) (2[5-9][0-9]|[3-9][0-9]{2}|[0-9]{4,})\)\)\)", f)]
+        if collapsed:
+            fails = [f for f in fails if f not in collapsed]
+            rep.violation("c%04d-maclang" % i, {"case": "c%04d" % i, "failures": collapsed[:4]}, signature="C08:labels-in-several-languages-share-language-0-on-macintosh-and-unicode-platforms")
         if fails:
             dd = os.path.join(rep.replay_dir, "C08-%s-c%04d" % (seed, i))
             shutil.rmtree(dd, ignore_errors=True)
